@@ -140,7 +140,7 @@ impl Runner {
             let clock = self.drv.clock;
             let fresh = Driver::boot_with(&ctx.scratch.join(format!("c13-pool-{:?}-{}", self.limit, self.boots)), &self.cons, pool_config(), true)?;
             let old = std::mem::replace(&mut self.drv, fresh);
-            old.node.shutdown();
+            old.node.destroy();
             self.drv.clock = clock;
             install_gate(&self.drv, &self.sink);
         }
@@ -520,7 +520,7 @@ pub fn run(ctx: &Ctx) -> Report {
             }
         }
         if let Some(r) = runner.take() {
-            r.drv.node.shutdown();
+            r.drv.node.destroy();
         }
     }
     report
